@@ -14,13 +14,13 @@ class TagsNode(BaseNode):
             return TagsNode(parser)
             
     def parse(self, env):
-        if env.nodes[-1].keyword not in ['str','int','float','bool']:
-            raise Exception("Format can be set only to str, int, float and bool nodes:", env.nodes[-1].code)
+        if env.property_target().keyword not in ['str','int','float','bool']:
+            raise Exception("Format can be set only to str, int, float and bool nodes:", env.property_target().code)
         tags = json.loads(self.value_raw)
         if not isinstance(tags, list):
             raise Exception("Tags can be input only as an array of strings, instead received:", tags)
-        if env.nodes[-1].tags == None:
-            env.nodes[-1].tags = tags
+        if env.property_target().tags == None:
+            env.property_target().tags = tags
         else:
-            env.nodes[-1].tags += tags
+            env.property_target().tags += tags
         return None
